@@ -64,6 +64,23 @@ class Obj:
 # ----------------------------------------------------------------------------
 # values
 # ----------------------------------------------------------------------------
+class Box(dict):
+    """a top-level container that can be ordered against numbers (by its size), so that a definition like `g < 3` on the
+    container ref itself has a value; module level, because a manager holding one is pickled"""
+
+    def __lt__(self, other):
+        return len(self) < other
+
+    def __le__(self, other):
+        return len(self) <= other
+
+    def __gt__(self, other):
+        return len(self) > other
+
+    def __ge__(self, other):
+        return len(self) >= other
+
+
 def val_py(j):
     k, v = next(iter(j.items()))
     if k == "int":
@@ -628,6 +645,78 @@ def run_case(case, fail, stats):
                 fail("C06", "identical-structure-not-equal", {"t": case["t1"], "eq": a == b, "hash_eq": hash(a) == hash(b)})
         elif a == b or (b in {a: 1}):
             fail("C06", "different-expressions-identified", {"t1": case["t1"], "t2": case["t2"], "printed": [str(a), str(b)]})
+    elif kind == "rooteq":
+        # the TOP-LEVEL container refs themselves (what Manager.refattr() / Manager.ref() return, not an item of them) as
+        # operands: compared, hashed, looked up, put into one set, ordered inside a definition.  p belongs to one manager, q is
+        # the container ref of the same (or another) label in a second manager / an unpickled / a deep-copied one.  Everything
+        # observed goes into the transcript that C20 compares between builds and hash seeds; C06 gives a verdict where the
+        # two refs are of one class (same label: one path; other label: two paths).
+        how_p, how_q = case.get("how", ["refattr", "refattr"])
+        lab = case.get("label", "g")
+        lab2 = case.get("label2", lab)
+        other = case.get("other", "manager2")
+        m = xdeps.Manager()
+        box = Box(x=1.0, y=2.0)
+        p = getattr(m, how_p)(box, lab)
+        if other == "pickle":
+            m2 = pickle.loads(pickle.dumps(m))
+            q, how_q, lab2 = m2.containers[lab], how_p, lab
+        elif other == "deepcopy":
+            import copy
+            m2 = copy.deepcopy(m)
+            q, how_q, lab2 = m2.containers[lab], how_p, lab
+        else:
+            m2 = xdeps.Manager()
+            q = getattr(m2, how_q)(Box(x=1.0, y=2.0), lab2)
+        stats["rooteq_cases"] = stats.get("rooteq_cases", 0) + 1
+        stats["rooteq_refattr"] = stats.get("rooteq_refattr", 0) + (how_p == "refattr") + (how_q == "refattr")
+        obs = {}
+
+        def see(name, f, show=lambda x: x):
+            r = outcome(f)
+            obs[name] = show(r[1]) if r[0] == "ok" else "raised " + r[1]
+            stats["rooteq_observations"] = stats.get("rooteq_observations", 0) + 1
+            return obs[name]
+        eq = see("p == q", lambda: p == q)
+        ne = see("p != q", lambda: p != q)
+        see("q == p", lambda: q == p)
+        see("q != p", lambda: q != p)
+        see("p == p", lambda: p == p)
+        heq = see("hash(p) == hash(q)", lambda: hash(p) == hash(q))
+        indict = see("q in {p: 1}", lambda: q in {p: 1})
+        inset = see("q in {p}", lambda: q in {p})
+        n2 = see("len({p, q})", lambda: len({p, q}))
+        see("len({p: 1, q: 2})", lambda: len({p: 1, q: 2}))
+        see("[p, q].index(q)", lambda: [p, q].index(q))
+        see("p == 'label'", lambda: p == lab)
+        see("'label' == p", lambda: lab == p)
+        see("p != 'label'", lambda: p != lab)
+        see("p == 'other'", lambda: p == lab + "_")
+        see("targets of a function task {p, q}", lambda: len(xdeps.tasks.FunctionTask("t", lambda: None, targets={p, q}, dependencies={p["x"]}).targets))
+        # ordering comparisons BUILD expressions: their text (or the exception class)
+        for sym, op in (("<", operator.lt), ("<=", operator.le), (">", operator.gt), (">=", operator.ge)):
+            see("p %s 3" % sym, lambda: op(p, 3), str)
+            see("3 %s p" % sym, lambda: op(3, p), str)
+            see("p %s p['y']" % sym, lambda: op(p, p["y"]), str)
+            see("p %s q" % sym, lambda: op(p, q), str)
+        # ... and are used in definitions
+        see("p['small'] = p < 3", lambda: p.__setitem__("small", p < 3))
+        see("p['big'] = p >= p['y']", lambda: p.__setitem__("big", p >= p["y"]))
+        see("p['rev'] = 7 > p", lambda: p.__setitem__("rev", 7 > p))
+        see("dump", lambda: m.dump(), lambda d: sorted(map(json.dumps, d)))
+        see("contents", lambda: sorted((k, repr(v)) for k, v in box.items()))
+        see("p['y'] = 9.0", lambda: p.__setitem__("y", 9.0))
+        see("contents after", lambda: sorted((k, repr(v)) for k, v in box.items()))
+        case["_text"] = str(p)
+        case["_val"] = case["_val0"] = json.dumps(obs, sort_keys=True)
+        if how_p == how_q:
+            if lab == lab2:
+                if not (eq is True and ne is False and heq is True and indict is True and inset is True and n2 == 1):
+                    fail("C06", "same-container-not-identified", {"how": how_p, "label": lab, "other": other,
+                                                                  "observed": {k: obs[k] for k in list(obs)[:9]}})
+            elif eq is not False or ne is not True or indict is not False or inset is not False or n2 != 2:
+                fail("C06", "different-containers-identified", {"how": how_p, "labels": [lab, lab2], "other": other,
+                                                                "observed": {k: obs[k] for k in list(obs)[:9]}})
     elif kind == "print":
         env = Env(case["vals"])
         t = case["term"]
@@ -1455,6 +1544,19 @@ def cases_c06(rng, n):
     yield {"kind": "eqhash", "p": [["i", "a"], ["a", "y"]], "q": [["i", "a"], ["a", "y"]], "refattr2": True}
     yield {"kind": "eqhash", "p": [["i", "a"], ["i", 2]], "q": [["i", "a"], ["i", 3]], "refattr2": True}
     yield {"kind": "eqhash", "p": [["a", "a"]], "q": [["i", "a"]], "label": "c", "label2": "c"}
+    # the top-level container refs themselves, as Manager.refattr() and Manager.ref() make them
+    for other in ["manager2", "pickle", "deepcopy"]:
+        for how in [["refattr", "refattr"], ["ref", "ref"], ["refattr", "ref"], ["ref", "refattr"]]:
+            if other != "manager2" and how[0] != how[1]:
+                continue
+            yield {"kind": "rooteq", "how": how, "other": other, "label": "g"}
+    for how in [["refattr", "refattr"], ["ref", "ref"], ["refattr", "ref"]]:
+        yield {"kind": "rooteq", "how": how, "other": "manager2", "label": "g", "label2": "h"}
+        yield {"kind": "rooteq", "how": how, "other": "manager2", "label": "c['a']", "label2": "c['a']"}
+    for i in range(max(4, n // 40)):
+        lab = rng.choice(["g", "h", "e", "vars", "c['a']", "a.b"])
+        yield {"kind": "rooteq", "how": [rng.choice(["refattr", "ref"]), rng.choice(["refattr", "refattr", "ref"])],
+               "other": rng.choice(["manager2", "manager2", "pickle", "deepcopy"]), "label": lab, "label2": rng.choice([lab, lab, "g", "h"])}
 
 
 PRINT_OPS = ARITH * 3 + BITS + CMPS
